@@ -10,7 +10,7 @@ CONSTANTS Kinds <- K1
  MaxCalls = 3
  MaxVer = 1
  MaxInv = 1
- MaxTrim = 1
+ MaxTrim = 0
 INVARIANTS Safety FetchExactlyMissing
 PROPERTIES DropsAffectedProp
 VIEW View
